@@ -661,3 +661,29 @@ func vfGridRun(rt *rapid.T, st *vfStats, prop string, o vfGridOpts) *vfGridResul
 	st.Sample(map[string]any{"client": src.String(), "sni": sni, "server": choice.String(), "suite": fmt.Sprintf("%04x", cs.CipherSuite), "group": fmt.Sprintf("%04x", selGroup)})
 	return res
 }
+
+// vfGenTLS13Src draws a source whose hello carries key shares: a TLS 1.3 parrot or a randomized spec forced to 1.3.
+func vfGenTLS13Src(rt *rapid.T) vfClientSrc {
+	// parrots whose hello carries key shares, or a randomized spec forced to TLS 1.3
+	if rapid.IntRange(0, 9).Draw(rt, "kind") < 7 {
+		var cands []vfParrot
+		for _, p := range vfParrots {
+			spec, err := UTLSIdToSpec(p.ID)
+			if err != nil {
+				continue
+			}
+			for _, e := range spec.Extensions {
+				if _, ok := e.(*KeyShareExtension); ok {
+					cands = append(cands, p)
+					break
+				}
+			}
+		}
+		p := cands[rapid.IntRange(0, len(cands)-1).Draw(rt, "parrot")]
+		return vfClientSrc{Kind: "parrot", Name: p.Name, ID: p.ID}
+	}
+	src := vfGenRandomizedID(rt, "rnd")
+	src.ID.Weights.TLSVersMax_Set_VersionTLS13 = 1
+	return src
+}
+
